@@ -76,6 +76,10 @@ def support_cases(tier):
                 for rel in ('==', '<'):
                     sts.append(('expr', ('bin', rel, ('bin', op, gen.P_, gen.X_), ('lit', 2))))
                     sts.append(('expr', ('bin', rel, gen.P_, ('bin', op, gen.X_, ('lit', 1)))))
+            # a non-random expression on the left, the random field on the right: every relational operator
+            for rel in ref.REL:
+                for op, k in (('+', 1), ('-', 1), ('+', 0)):
+                    sts.append(('expr', ('bin', rel, ('bin', op, gen.X_, ('lit', k)), gen.P_)))
             for hi in range(tp[1]):
                 for lo in range(hi + 1):
                     sts.append(('expr', ('bin', '==', ('psel', 'p', hi, lo), ('lit', 1))))
